@@ -17,8 +17,9 @@
 
   MODELLED, NOT VERIFIED: serde and serde_derive (1.0.229).  Not modelled at all (the model
   answers `CRes.unmodelled`, printed `unmodelled` by the driver; the streams never go there):
-  the `f64 as f32` coercion of serde's `f32` visitor on a `Content::F64`, and `Content`-buffered
-  types nested inside another `Content` buffer.
+  the `f64 as f32` coercion of serde's `f32` visitor on a `Content::F64`, `Content`-buffered
+  types nested inside another `Content` buffer, and structs with `skip_serializing_if` fields
+  (`structS`) behind a `Content` buffer or as variants of a non-externally-tagged enum.
 
   `skipItem` is `Dec.skip true`, the model of `Decoder::skip` from Skip.lean (used for `null`
   and for `IgnoredAny`, i.e. unknown struct fields).
